@@ -74,6 +74,16 @@ Definition clear (s : st) (x : bool) : list st :=
   | _, _ => []
   end.
 
+(* the router loses its keys and its hello state for the peer (restart, or the idle session is
+   evicted) while nothing is in flight; the peer keeps what it has *)
+Definition forget (s : st) (x : bool) : list st :=
+  if quiescent s then
+    match k (get s x), p (get s x) with
+    | None, None => []
+    | _, _ => [set_rt s x (mkRt None None)]
+    end
+  else [].
+
 (* receiver y handles message m from x *)
 Definition handle (s : st) (y : bool) (m : msg) : st :=
   let r := get s y in
@@ -122,6 +132,7 @@ Definition next (exp_any : bool) (s : st) : list st :=
   flat_map (start s) sides ++
   (if exp_any || quiescent s then flat_map (expire s) sides else []) ++
   flat_map (clear s) sides ++
+  flat_map (forget s) sides ++
   flat_map (fun x => flat_map (drop s x) (positions s x)) sides ++
   flat_map (fun x => flat_map (deliver s x) (positions s x)) sides.
 
